@@ -630,7 +630,7 @@ def rule_state_root(run):
     if len(roots) != 1:
         raise AnalysisError("_State.__init__: root code field not recognised")
     root = roots[0]
-    for meth in ("fix_alias", "visit", "visit_objects", "update_transitions", "code"):
+    for meth in ("fix_alias", "visit", "visit_objects", "update_transitions", "code", "empty"):
         f = rp.functions.get(f"_State.{meth}")
         if f is None:
             continue
